@@ -340,7 +340,7 @@ def _poll(cons, st, state, ref, n, idx, ctr, wl, drained):
             raise W.Violation('I2-extra-object', step=idx, got=state['got'])
         if a != ref[state['got']]:
             raise W.Violation('I2-wrong-object', step=idx, index=state['got'],
-                              got=repr(U.jsonable(a))[:300], want=repr(U.jsonable(ref[state['got']]))[:300])
+                              got=U.safe_repr(U.jsonable(a)), want=U.safe_repr(U.jsonable(ref[state['got']])))
         state['got'] += 1
     elif kind in (W.NONE, W.OTHER):
         raise W.Violation('I3-non-object-yielded', step=idx, what=repr(payload)[:80],
